@@ -18,10 +18,10 @@ import common  # noqa: F401  (sets sys.path for codelimit)
 HIDDEN_DIRS = [".git", ".venv", ".cache"]
 HIDDEN_FILES = [".hidden.py", ".env.js"]
 BUILTIN_DIRS = ["tests", "test", "build", "dist", "node_modules", "venv", "_build", "buck-out"]
-PLAIN_DIRS = ["src", "pkg", "a", "lib"]
+PLAIN_DIRS = ["src", "pkg", "a", "lib", "[id]"]        # `[id]`: Next.js-style route folder; rich markup would swallow it (seeded change C12-4)
 SUPPORTED_EXT = [".py", ".js", ".ts", ".c", ".cpp", ".h", ".java", ".cs"]
 UNSUPPORTED_EXT = [".txt", ".md", ".rs"]
-STEMS = ["main", "util", "x", "mod", "test", "build", "b"]
+STEMS = ["main", "util", "x", "mod", "test", "build", "b", "[slug]"]
 NOEXT = ["Makefile", "README", "LICENSE", "BUILD", "WORKSPACE", "SConstruct", "Dockerfile", "Rakefile"]
 # extension-less names Pygments maps to a supported language by their full name (seeded change C11-3:
 # a per-extension lexer cache makes the first extension-less name decide for all others)
@@ -253,7 +253,8 @@ def gen_patterns(rnd, tree=None):
                 out.append("/" + "/".join(comps[:2]))
             else:
                 out.append("/" + (rnd.choice(comps) if comps else rnd.choice(PLAIN_DIRS)))
-    return out
+    # names with brackets are file/folder names only: in a pattern `[..]` would be a character class
+    return [p for p in out if "[" not in p]
 
 
 def pattern_matches(pat, comps):
